@@ -302,6 +302,11 @@ func VP_C13_KindChange() {
 	zzvp.Assert(len(st.staged) == 0 && len(st.modified) == 0, "nothing is staged and nothing is modified")
 	zzvp.Assert(vpSameSet(st.deleted, []string{oldPath}), "deleted = exactly the tracked paths missing from the work tree (a directory standing where the file was does not make it present)")
 	zzvp.Assert(vpSameSet(st.untracked, []string{newPath}), "untracked = exactly the files on disk that are neither tracked nor ignored nor inside .goit")
+	// staging the replacement and editing the other tracked file: the other file is modified, nothing is untracked or deleted
+	vpOK(zzvp.Run("add", newPath))
+	zzvp.WriteFile(w+"/"+other, []byte("P"))
+	st = vpParseStatus(zzvp.Run("status").Out)
+	zzvp.Assert(vpSameSet(st.modified, []string{other}) && len(st.deleted) == 0 && len(st.untracked) == 0, "modified = exactly the tracked files whose bytes differ from their staged blob (identical rewrite reports nothing)")
 	zzvp.Done()
 }
 
